@@ -315,6 +315,44 @@ class Rewriter:
             return True
         return False
 
+    # ---- C. a local closure called on the spot ------------------------------------------------------------
+    def rewrite_closure_call(self, bi):
+        """`Fn::call(&c, (a, ..))` / `FnMut::call_mut` / `FnOnce::call_once` where c is a closure aggregate of this body: the
+        direct call of the closure's body (spliced by the inliner)"""
+        b = self.blocks[bi]
+        t = b["term"]
+        c = t["callee"]
+        path = c.get("path") or ""
+        if path not in ("std::ops::Fn::call", "std::ops::FnMut::call_mut", "std::ops::FnOnce::call_once") or len(t["args"]) != 2:
+            return False
+        if t.get("to") is None or t["dest"]["proj"]:
+            return False
+        # the callee: `&c`, `&mut c` or `c`
+        op = t["args"][0]
+        pl = op.get("move") or op.get("copy")
+        if pl is None or pl["proj"]:
+            return False
+        l = pl["l"]
+        ds = self.defs_of(l)
+        if len(ds) == 1 and ds[0][0] == "stmt" and "ref" in ds[0][2]["rv"] and not ds[0][2]["rv"]["ref"]["proj"]:
+            l = ds[0][2]["rv"]["ref"]["l"]
+        cb = self.callable_of(_mv(l))
+        if cb is None or cb[0] != "closure":
+            return False
+        # the argument tuple
+        ap = t["args"][1].get("move") or t["args"][1].get("copy")
+        if ap is None or ap["proj"]:
+            return False
+        ads = self.defs_of(ap["l"])
+        if len(ads) != 1 or ads[0][0] != "stmt" or ads[0][2]["rv"].get("agg") != "tuple":
+            return False
+        ops = list(ads[0][2]["rv"]["ops"])
+        g = self.F.fns[cb[1]]
+        if g.arg_count != 1 + len(ops):
+            return False
+        b["term"] = self.call_callable(cb, ops, t["dest"]["l"], t["to"], b["line"], b["stmts"])
+        return True
+
     # ---- B. iterator pipelines ------------------------------------------------------------------------
     STAGES = ("map", "filter", "filter_map", "copied", "cloned", "inspect")
     SINKS = ("sum", "count", "for_each", "fold", "collect", "find", "position")
@@ -612,7 +650,7 @@ class Rewriter:
                 if t["k"] != "call" or b.get("cleanup") or "indirect" in t["callee"]:
                     continue
                 try:
-                    if self.rewrite_combinator(bi) or self.rewrite_pipeline(bi):
+                    if self.rewrite_combinator(bi) or self.rewrite_pipeline(bi) or self.rewrite_closure_call(bi):
                         progress = True
                         self.changed = True
                 except (KeyError, IndexError, TypeError):
@@ -636,7 +674,7 @@ def normalise(F):
             if t["k"] == "call" and "indirect" not in t["callee"]:
                 n = t["callee"].get("name")
                 if n in Rewriter.SINKS or n in ("map", "map_or", "map_or_else", "and_then", "unwrap_or_else", "filter", "flatten",
-                                                "map_err", "then", "then_some"):
+                                                "map_err", "then", "then_some", "call", "call_mut", "call_once"):
                     has = True
                     break
         if not has:
